@@ -14,7 +14,13 @@ def run(tier, seed):
     sc.model_check(rep, "MC_FimStore", sc.consts(["g1", "g2"], ["a", "b"], depth=3 if quick else 4, queries=False))
     # 2. spec -> code: every transition of the bounded model replayed on both backends, judged by Trace_FimStore
     scripts = sc.generate(rep, "Gen_FimStore", sc.consts(["g1", "g2"], ["a", "b"], depth=3 if quick else 4))
-    sc.run_and_validate(rep, scripts, VARIANTS, "tlc-generated")
+    sc.run_and_validate(rep, scripts, VARIANTS, "tlc-generated from the empty store")
+    for seed_name in ("pair", "tri"):
+        sc.model_check(rep, "MC_FimStore seed=" + seed_name,
+                       sc.consts(["g1", "g2"], ["a", "b"], depth=2 if quick else 3, queries=False, seed=seed_name))
+        scripts = sc.generate(rep, "Gen_FimStore seed=" + seed_name,
+                              sc.consts(["g1", "g2"], ["a", "b"], depth=2 if quick else 3, seed=seed_name))
+        sc.run_and_validate(rep, scripts, VARIANTS, "tlc-generated from seeded store " + seed_name)
     # 3. code -> spec: seeded random histories over a larger alphabet
     rng = random.Random(seed)
     gen = sc.RandomStoreOps(rng, ["g1", "g2", "g3"], ["a", "b", "c", "d"], ["K1", "K2", "K3"], ["r1", "r2", "r3"],
